@@ -20,9 +20,13 @@ Proved, for every input and every token the lexer emits:
 * `token_positions_true_partial` — the reported line is the true line of `Pos`; the reported
   column is the true column of `Pos` unless the classifier of the known finding
   `hash-comment-column` holds at the token;
-* `token_starts_at_first_character` / `token_text_at_pos` — `Pos` IS the token's first character
-  (comment tokens: the first byte of the comment text, the opener directly before it — they are
-  meta data and never reach an error or a break point);
+* `token_starts_at_first_character` / `token_text_at_pos` — at `Pos` stands a non-blank rune and
+  (words, numbers, comments) the token's text; comment tokens and the error token of an
+  unterminated block comment: the first byte of the comment text, the opener directly before it.
+  NOT proved: the gap clause (only blanks and comments between the end of one token's text and
+  the `Pos` of the next) and the extent of string / error tokens — a lexer starting every word at
+  its second byte would satisfy these two theorems; the driver's independent scan
+  (`expectedPositions`) tests the gap on every case, `C14Lex` gives the extent of literals;
 * the invariant between tokens (`lexer_pos_invariant_partial`, partial for the same `#` staleness)
   and the loop / scanner lemmas it rests on.
 
@@ -212,7 +216,7 @@ theorem stale_column_exact (input : List Nat) :
         c.val.getLast? = some 10 ∧ t.col - (t.pos : Int) = c.col - (c.pos : Int) :=
   fun t ht hne => (lex_ok input t ht hne).1.2
 
-/-! ## Pos is the token's first character -/
+/-! ## What stands at Pos (the gap between tokens is tested, not proved) -/
 
 /-- **token_starts_at_first_character.** Every token other than EOF and comments starts inside
     the input at a rune that is not blank (`blank` = unicode.IsSpace ∨ unicode.IsControl: what
@@ -337,24 +341,25 @@ example : (∀ t ∈ (lex witnessSrc).toList, t.id ≠ tERROR) ∧
 
 /-! ## Errors, stack traces and break points copy the token's position (regenerated source fact) -/
 
-/-- which site kinds the extractor found in the expected shape (evidence; not an obligation:
-    a behaviour-preserving rewrite may move a site into a shape the extractor does not know) -/
+/-- which site kinds the extractor found in the expected shape (reported in the evidence as
+    `fact_kinds_established`; not an obligation: a behaviour-preserving rewrite may move a site
+    into a shape the extractor does not know) -/
 def establishedKinds : List Nat :=
   [1, 2, 3, 4, 6, 7, 8, 9, 10].filter fun k => Ecal.Gen.C18.sites.any fun s => s.1 == k && s.2.1 == 0
 
 /-- **errors_carry_token_pos (source fact, regenerated from the tree under test on every run by
-    `harness C18 -tool extract`, go/ast; three-valued).** No site that copies a token position into
-    something the user sees is REFUTED: no construction of `parser.Error` / `util.RuntimeError`, no
-    `Error()` text, no stack trace entry, no break point key and no except object field uses the
-    position fields in a wrong arrangement (Line / Pos swapped, taken from two different tokens, the
-    byte offset or PrefixNewlines instead of Lline / Lpos, arithmetic on them). On the current tree
-    every kind of site is moreover ESTABLISHED in the expected shape (`establishedKinds`, example
-    below): Line / Pos from `Lline` / `Lpos` of ONE token (or 0, 0), Line printed before Pos from the
-    struct's own fields, trace entries and break point keys on `Token.Lline`, except object
-    `line` / `pos` = the error's `Line` / `Pos`. A site of UNKNOWN shape breaks nothing and is
-    reported in the evidence; the planted-error and break point cases (kinds E, B) observe the same
-    clause at run time. -/
+    `harness C18 -tool extract`, go/ast; three-valued; the judgement itself is Go string matching on
+    the operands and is part of the trusted base).** (1) Every kind of site that copies a token
+    position into something the user sees is PRESENT in the tree (constructions of `parser.Error` /
+    `util.RuntimeError`, both `Error()` methods, `GetTraceString`, the break point key that indexes
+    `ed.breakPoints` in `VisitState`, `SetBreakPoint`, the except object's `line` / `pos`) — an empty
+    or foreign tree does not satisfy this; (2) no site is REFUTED: none uses a token's byte offset or
+    PrefixNewlines, arithmetic on a position field, or Line / Pos of one value swapped. A site of
+    UNKNOWN shape (locals, helpers) breaks nothing and is listed in the evidence; which kinds are
+    ESTABLISHED in the expected shape is evidence too (`establishedKinds`; all nine on /repo HEAD).
+    The planted-error and break point cases (kinds E, B) observe the same clause at run time. -/
 theorem errors_carry_token_pos :
+    ([1, 2, 3, 4, 6, 7, 8, 9, 10].all fun k => Ecal.Gen.C18.sites.any fun s => s.1 == k) = true ∧
     (Ecal.Gen.C18.sites.all fun s => s.2.1 != 1) = true := by
   decide
 
